@@ -824,6 +824,11 @@ func makeMapArshaler(t reflect.Type) *arshaler {
 			if emitNull && va.IsNil() {
 				return enc.WriteToken(jsontext.Null)
 			}
+			// The fast path below does not consult the state machine, so handle
+			// being at the maximum nesting depth here by letting WriteToken report it.
+			if xe.Tokens.AtMaxDepth() {
+				return enc.WriteToken(jsontext.BeginObject)
+			}
 			// Optimize for marshaling an empty map without any preceding whitespace.
 			if optimizeCommon && !mo.Flags.Get(jsonflags.AnyWhitespace) && !xe.Tokens.Last.NeedObjectName() {
 				xe.Buf = append(xe.Tokens.MayAppendDelim(xe.Buf, '{'), "{}"...)
@@ -1503,6 +1508,11 @@ func makeSliceArshaler(t reflect.Type) *arshaler {
 		if n == 0 {
 			if emitNull && va.IsNil() {
 				return enc.WriteToken(jsontext.Null)
+			}
+			// The fast path below does not consult the state machine, so handle
+			// being at the maximum nesting depth here by letting WriteToken report it.
+			if xe.Tokens.AtMaxDepth() {
+				return enc.WriteToken(jsontext.BeginArray)
 			}
 			// Optimize for marshaling an empty slice without any preceding whitespace.
 			if optimizeCommon && !mo.Flags.Get(jsonflags.AnyWhitespace) && !xe.Tokens.Last.NeedObjectName() {
